@@ -76,7 +76,7 @@ CLAIMS.update({
      'loop-heavy programs (bodies that reassign outer variables, mutate the iterated list, return early, nest loops), every list '
      'length 0..7 and low-precision caller contexts.'),
      note='STRICT is judged only where its divisibility precondition holds (an AssertionError of the guard is a skipped input). '
-          'Known finding: elim_iter over a source list the body mutates.'),
+          'Known findings: elim_iter over a source list the body mutates; fuse hoisting a reduction out of a short-circuited operand.'),
  'C09': dict(engine='Equiv', technique=TECH_M, text=(
      'As C07 with inline (all sites, one site, one level), monomorphize under pinned caller contexts (the original evaluated with '
      'that context), close, lift_context and compositions on caller/callee programs: callees with and without their own context, '
@@ -137,7 +137,7 @@ CLAIMS.update({
      'whose statements carry unique literal markers x 8 aimable strategy configurations x every where; the real sites, refusals, outcome, '
      'edit log, both trees and Function.forward of EVERY old statement cursor are recorded and judged by Cursor!ApplyVerdict; chains '
      'of two strategies forward end to end.'),
-     note='Statement cursors only (expression cursors of inline / elim_round are not enumerated); blocks <= 6 statements at design level.'),
+     note='Statement-sited strategies and the expression-sited inline (every call carries a unique marker; expression cursors forwarded); insert_round sites are not enumerated; blocks <= 6 statements at design level.'),
 })
 
 ENGINES = [
